@@ -42,6 +42,9 @@ struct Sys {
     a: Address,
     off: u32,
     fund: i64,
+    /// for behaviours printed by TLC (their ops carry no "blanket" field): every other behaviour runs its entries
+    /// under blanket authorization
+    blanket_default: bool,
 }
 
 fn small(v: i128) -> Value {
@@ -66,7 +69,7 @@ impl Sys {
         names.insert("v", v.clone());
         let mut accts: Vec<String> = users.iter().map(|s| s.to_string()).collect();
         accts.push("v".into());
-        let sys = Sys { e, names, accts, v, a, off, fund };
+        let sys = Sys { e, names, accts, v, a, off, fund, blanket_default: false };
         // funding (genesis of the asset token; not judged)
         for u in users.iter().take(2) {
             asset::AssetTokenClient::new(&sys.e, &sys.a).mint(&sys.names.get(u), &(fund as i128));
@@ -184,7 +187,16 @@ impl Sys {
                         trees.push((w.clone(), inv));
                     }
                 }
-                set_auths(e, &trees);
+                // (Several entries with the same root do not help when the nested amount differs by more than the host's
+                // matching allows - the call then merely fails. "blanket": the signer is among the authorizers and signs
+                // whatever the call turns out to need (the host waves every authorization through), so that an entry that
+                // pulls another amount than previewed RUNS and is judged.)
+                let signer_ok = who.contains(&oper) && !nosub;
+                if op.get("blanket").and_then(|v| v.as_bool()).unwrap_or(self.blanket_default) && signer_ok {
+                    e.mock_all_auths_allowing_non_root_auth();
+                } else {
+                    set_auths(e, &trees);
+                }
                 let rr = if kind == "deposit" { vc.try_deposit(&x, &recv, &own, &oper) } else { vc.try_mint(&x, &recv, &own, &oper) };
                 if let Ok(Ok(v)) = &rr { ret = if v.abs() < (1 << 30) { *v as i64 } else { BAD }; }
                 res_of(&rr)
@@ -225,7 +237,12 @@ impl Sys {
         };
         let evs = self.share_events();
         let px = { let x = n(op, "x") as i128; if x > 0 { x } else { 3 } };
-        json!({"op": op, "res": r.0, "err": r.1, "pv": pv, "ret": ret, "obs": self.obs(), "q": self.probes(px), "evs": evs})
+        // (the echoed op records the authorization regime that was in force, so that a replay repeats it)
+        let mut op_out = op.clone();
+        if matches!(kind, "deposit" | "mint") {
+            op_out["blanket"] = json!(op.get("blanket").and_then(|v| v.as_bool()).unwrap_or(self.blanket_default));
+        }
+        json!({"op": op_out, "res": r.0, "err": r.1, "pv": pv, "ret": ret, "obs": self.obs(), "q": self.probes(px), "evs": evs})
     }
 
     fn reset_event(&self) -> Value {
@@ -239,10 +256,11 @@ fn main() {
     match cli() {
         Mode::Exec { input, output } => {
             let mut t = Trace::create(&output);
-            for b in read_behaviours(&input) {
+            for (bi, b) in read_behaviours(&input).iter().enumerate() {
                 let off = b.cfg.get("off").and_then(|v| v.as_u64()).unwrap_or(0) as u32;
                 let fund = b.cfg.get("fund").and_then(|v| v.as_i64()).unwrap_or(6);
                 let mut sys = Sys::new(&["a", "b", "c"], off, fund);
+                sys.blanket_default = bi % 2 == 1;
                 t.reset(sys.reset_event());
                 for op in &b.ops {
                     let ev = sys.step(op);
@@ -296,7 +314,8 @@ fn main() {
                     };
                     if good { auth.push(signer.into()); }
                     let nosub = r.gen_bool(0.03);
-                    let op = json!({"op": kind, "x": x, "recv": recv, "own": own, "oper": oper, "auth": auth, "nosub": nosub});
+                    let blanket = matches!(kind, "deposit" | "mint") && r.gen_bool(0.5);
+                    let op = json!({"op": kind, "x": x, "recv": recv, "own": own, "oper": oper, "auth": auth, "nosub": nosub, "blanket": blanket});
                     let ev = sys.step(&op);
                     last = ev["obs"].clone();
                     t.step(ev);
